@@ -1,6 +1,7 @@
 package rules
 
 import (
+	"go/constant"
 	"go/token"
 	"go/types"
 	"strings"
@@ -658,16 +659,116 @@ func readerExits(ctx *core.Ctx, r *RT, loop *ssa.Function, rule string) {
 			return ssax.PathFrom(g, nil, unclassifiedReturn, inner) == nil
 		}
 	}
+	// a predicate or loop-body helper: `if closeRequested(sig)` / `for f.next(…) {}`
+	// — when every way to a `return b` of the helper consumes the token or
+	// closes, the b-edge of the test in the caller is classified
+	blockedEdge := map[[2]*ssa.BasicBlock]bool{} // classified edges of the loop function whose target has other predecessors
+	var addPredicateEdges func(f *ssa.Function, tb map[*ssa.BasicBlock]bool, depth int)
+	addPredicateEdges = func(f *ssa.Function, tb map[*ssa.BasicBlock]bool, depth int) {
+		if depth <= 0 {
+			return
+		}
+		for _, c := range ssax.Calls(f) {
+			call, isCall := c.Instr.(*ssa.Call)
+			g := c.Static
+			if !isCall || g == nil || g.Pkg != r.Pkg || len(g.Blocks) == 0 || g == f || g == closeFn {
+				continue
+			}
+			res := g.Signature.Results()
+			if res.Len() != 1 {
+				continue
+			}
+			if b, isB := res.At(0).Type().Underlying().(*types.Basic); !isB || b.Kind() != types.Bool {
+				continue
+			}
+			gtb := map[*ssa.BasicBlock]bool{}
+			for _, rs := range RecvSites(g) {
+				if !isSignalChan(rs.Chan.Type()) {
+					continue
+				}
+				if sel, ok := rs.Instr.(*ssa.Select); ok {
+					if b := SelectCaseBlock(sel, rs.SelIndex); b != nil {
+						gtb[b] = true
+					}
+				}
+			}
+			addPredicateEdges(g, gtb, depth-1)
+			inner := classifiedIn(g, gtb, depth-1)
+			for _, want := range []bool{true, false} {
+				w := want
+				unclassified := func(i ssa.Instruction) bool {
+					ret, ok := i.(*ssa.Return)
+					if !ok || inner(i) {
+						return false
+					}
+					if k, isK := ssax.Strip(ResolveLocal(ret.Results[0])).(*ssa.Const); isK && k.Value != nil {
+						return constant.BoolVal(k.Value) == w
+					}
+					return true
+				}
+				if ssax.PathFrom(g, nil, unclassified, inner) != nil {
+					continue
+				}
+				for _, u := range *call.Referrers() {
+					iff, ok := u.(*ssa.If)
+					if !ok {
+						continue
+					}
+					succ := iff.Block().Succs[1]
+					if w {
+						succ = iff.Block().Succs[0]
+					}
+					if len(succ.Preds) == 1 {
+						tb[succ] = true
+					} else if f == loop {
+						blockedEdge[[2]*ssa.BasicBlock{iff.Block(), succ}] = true
+					}
+				}
+			}
+		}
+	}
+	addPredicateEdges(loop, tokenBody, 2)
 	classified := classifiedIn(loop, tokenBody, 2)
 	ssax.Instrs(loop, func(in ssa.Instruction) {
 		ret, ok := in.(*ssa.Return)
 		if !ok || in.Block().Comment == "recover" {
 			return
 		}
-		isThis := func(x ssa.Instruction) bool { return x == ssa.Instruction(ret) }
-		bad := ssax.PathFrom(loop, nil, isThis, classified)
-		if classified(ret) {
-			bad = nil
+		// a way from the entry to this return that passes no classified
+		// instruction and no classified edge
+		var bad []*ssa.BasicBlock
+		if !classified(ret) {
+			parent := map[*ssa.BasicBlock]*ssa.BasicBlock{}
+			seen := map[*ssa.BasicBlock]bool{loop.Blocks[0]: true}
+			queue := []*ssa.BasicBlock{loop.Blocks[0]}
+			for len(queue) > 0 && bad == nil {
+				b := queue[0]
+				queue = queue[1:]
+				stopped := false
+				for _, x := range b.Instrs {
+					if x == ssa.Instruction(ret) {
+						for cur := b; cur != nil; cur = parent[cur] {
+							bad = append([]*ssa.BasicBlock{cur}, bad...)
+						}
+						break
+					}
+					if classified(x) {
+						stopped = true
+						break
+					}
+				}
+				if stopped || bad != nil {
+					continue
+				}
+				for _, sc := range b.Succs {
+					if blockedEdge[[2]*ssa.BasicBlock{b, sc}] || seen[sc] {
+						continue
+					}
+					seen[sc] = true
+					parent[sc] = b
+					queue = append(queue, sc)
+				}
+			}
 		}
 		construct := ln + sprintf(" › return #%d", retOrdinal(loop, ret))
 		if bad == nil {
@@ -677,12 +778,18 @@ func readerExits(ctx *core.Ctx, r *RT, loop *ssa.Function, rule string) {
 				"the reader loop can exit without the transport being closed and the cause published: the transport stays 'open' with nobody reading", ssax.PathString(r.V.Fset, bad)...)
 		}
 	})
-	for _, c := range ssax.Calls(loop) {
-		if c.Static == closeFn {
-			args := c.Args()
-			_, isNil := ssax.Strip(args[1]).(*ssa.Const)
-			ctx.Check(!isNil, rule, ln+" › close carries the error as cause #"+sprintf("%d", callOrdinal(loop, c)), r.IPos(c.Instr),
-				"close(err) with the error that ended the loop", "an unclean exit is reported with a nil cause (looks like a clean close: the monitor does not reopen)")
+	for _, g := range localCone(loop, 2) { // the loop and the parts of it extracted into helpers
+		if g == closeFn || (g != loop && (g.Object() == nil || g.Object().Exported())) {
+			continue
+		}
+		gn := ssax.Name(g)
+		for _, c := range ssax.Calls(g) {
+			if c.Static == closeFn {
+				args := c.Args()
+				_, isNil := ssax.Strip(args[1]).(*ssa.Const)
+				ctx.Check(!isNil, rule, gn+" › close carries the error as cause #"+sprintf("%d", callOrdinal(g, c)), r.IPos(c.Instr),
+					"close(err) with the error that ended the loop", "an unclean exit is reported with a nil cause (looks like a clean close: the monitor does not reopen)")
+			}
 		}
 	}
 }
